@@ -506,6 +506,12 @@ def run(prop, tier):
         os.makedirs(uwd, exist_ok=True)
         umc, utr, ucases, uobs = url_check.collect("quick", uwd, seed)
         for f in utr.marked["FAIL"]:
+            asked = sorted(c for c in f["clauses"] if c in ("C12_EveryLoginIsAsked", "C12_OverlappingLoginsEachAsked"))
+            if asked:
+                o = uobs[f["line"] - 1]
+                rep.violation("C01 %s [%s logins claiming %s]" % ("+".join("C01_" + c[4:] for c in asked), o["vec"]["kind"], url_check.show_name(o["vec"]["name"])),
+                              {"failing_clauses": asked, "what": "a login was vouched for although the service was not asked on THAT connection (with its shared secret)",
+                               "request_targets": [bytes(t).decode("latin1") for t in o["requests"]], "seed": seed})
             if "C01_IdentityOnlyFromReply" in f["clauses"]:
                 o = uobs[f["line"] - 1]
                 rep.violation("C01 C01_IdentityOnlyFromReply [session server answers '%s']" % o["vec"]["script"],
